@@ -25,7 +25,10 @@ CHECKS["C05"] = dict(
     text="Every public operator/constructor case is executed for real on operand skeletons (terminals, zeros, "
          "literals, sums, list tensors, permuting component tensors, shared/repeated free indices); shape and "
          "free indices are compared with the requested operation and z3 proves the built expression equals "
-         "the requested operation written directly over the operand values, for all operand values.",
+         "the requested operation written directly over the operand values, for all operand values. The free-index "
+         "bookkeeping helpers behind every constructor (merge_unique_indices, merge_overlapping_indices, remove_indices, "
+         "unique_sorted_indices) are additionally run under CrossHair with symbolic ids and dimensions against set-level "
+         "specifications (Confirmed over all paths).",
     technique="SMT translation validation of constructor simplifications (z3 NRA) + CrossHair on index-merge utilities",
     design="§4 C05", engine="E1")
 
